@@ -240,12 +240,16 @@ func (r *Router) Start() {
 
 		if err := r.registerConnection(dst, c); err != nil {
 			log.Lvl3(r.address, "does not accept incoming connection from", c.Remote(), "because it's closed")
+			// Nobody else knows this connection: close it, or it stays
+			// open on both sides after the router has stopped.
+			closeRefused(c)
 			return
 		}
 		// start handleConn in a go routine that waits for incoming messages and
 		// dispatches them.
 		if err := r.launchHandleRoutine(dst, c); err != nil {
 			log.Lvl3(r.address, "does not accept incoming connection from", c.Remote(), "because it's closed")
+			closeRefused(c)
 			return
 		}
 	})
@@ -373,19 +377,32 @@ func (r *Router) connect(si *ServerIdentity) (Conn, uint64, error) {
 	log.Lvl3(r.address, "Connected to", si.Address)
 	var sentLen uint64
 	if sentLen, err = c.Send(r.ServerIdentity); err != nil {
+		closeRefused(c)
 		return nil, sentLen, xerrors.Errorf("sending: %v", err)
 	}
 
 	verifAt("router.connected", r, si, c)
 	if err = r.registerConnection(si, c); err != nil {
+		// The router is closing: Stop() does not know this connection, so
+		// it has to be closed here.
+		closeRefused(c)
 		return nil, sentLen, xerrors.Errorf("register connection: %v", err)
 	}
 
 	if err = r.launchHandleRoutine(si, c); err != nil {
+		closeRefused(c)
 		return nil, sentLen, xerrors.Errorf("handling routine: %v", err)
 	}
 	return c, sentLen, nil
 
+}
+
+// closeRefused closes a freshly opened or accepted connection whose set-up
+// cannot be completed. The connection may already have been closed by Stop().
+func closeRefused(c Conn) {
+	if err := c.Close(); err != nil {
+		log.Lvl4("closing refused connection:", err)
+	}
 }
 
 func (r *Router) removeConnection(si *ServerIdentity, c Conn) {
